@@ -81,6 +81,13 @@ impl RawRwLock {
     pub(crate) fn can_write(&self) -> bool {
         self.state.load(Ordering::SeqCst) == 0
     }
+    /// Write lock -> one read lock (used by the dashmap shim's RawRwLockDowngrade).
+    ///
+    /// # Safety
+    /// The caller must hold the exclusive lock.
+    pub unsafe fn downgrade_to_shared(&self) {
+        self.state.store(1, Ordering::SeqCst);
+    }
 }
 
 unsafe impl lock_api::RawRwLock for RawRwLock {
